@@ -72,7 +72,7 @@ def read_then_write(ctx, rid="C14.read-then-write"):
                           (c.get("callee") or {}).get("rec") in (LR, COW) and path(f, f.s(c.get("obj"))) in ("this", "*this", "this.m_data"))
                 if not starts or f.pos_of(c) is None:
                     continue
-                anc = {a["id"] for a in f.ancestors(c)}
+                anc = {a["id"] for a in list(f.ancestors(c))}
                 for st, d in handles:
                     par = f.par(st)
                     alive = par is not None and par["id"] in anc and f.dominates(tuple(f.pos_of(st)), tuple(f.pos_of(c)))
